@@ -218,6 +218,7 @@ class Effect:
     col: int = 0
     aug: Optional[str] = None
     path: Optional[T] = None     # syntactic access path of the target base (no heap resolution)
+    alias: Optional[T] = None    # stores only: the existing object the stored value is an alias of (None: a fresh value)
 
 
 @dataclass
@@ -611,8 +612,15 @@ class _Frame:
 
     def s_Assign(self, s, st):
         v = self.eval(s.value, st)
-        for tgt in s.targets:
-            self.bind(tgt, v, st, s)
+        # the stored object is "shared" when the right-hand side names an existing object (an alias) or when one
+        # statement stores it into several targets (`a = b = {}`)
+        self._store_alias = self.path_of(s.value, st) if isinstance(s.value, (ast.Name, ast.Attribute, ast.Subscript)) \
+            else (T("same-statement", (s.lineno,)) if len(s.targets) > 1 else None)
+        try:
+            for tgt in s.targets:
+                self.bind(tgt, v, st, s)
+        finally:
+            self._store_alias = None
         return st
 
     def s_AnnAssign(self, s, st):
@@ -1042,7 +1050,8 @@ class _Frame:
     def effect(self, kind, base, key, value, args, st, node, aug=None, aug_val=None, path=None):
         self.rec.effects.append(Effect(kind, base, key, value if aug_val is None else aug_val, args, st.pc, self.loops,
                                        self.trys, self.seq(), self.qualname, getattr(node, "lineno", 0),
-                                       getattr(node, "col_offset", 0), aug, path))
+                                       getattr(node, "col_offset", 0), aug, path,
+                                       getattr(self, "_store_alias", None) if kind in ("attr-store", "sub-store") else None))
 
     def path_of(self, node, st: State) -> T:
         """Syntactic access path of an expression: names resolved through the environment, attribute and
